@@ -33,8 +33,9 @@ class SymName:
 
     _symstr = True
 
-    def __init__(self, tok):
+    def __init__(self, tok, model=None):
         self.tok = tok
+        self.model = model  # (T, o) of the zone this name denotes, when known
 
     def __repr__(self):
         return f"SymName({self.tok})"
